@@ -61,6 +61,7 @@ THEOREMS = [
     "SleapVerif.C20.scheduler_dict_places",
     "SleapVerif.C20.head_dict_places",
     "SleapVerif.C20.builder_complete_nested",
+    "SleapVerif.C20.train_cfg_eq_builders",
     "SleapVerif.C20.convnext_model_type_rejected",
     "SleapVerif.C20.geometric_scale_counterexample",
     "SleapVerif.C20.backbone_dict_drops_second_counterexample",
@@ -471,6 +472,39 @@ class Impl:
         r = call(go)
         return [line], (("raise", r[1]) if r[0] == "raise" else ("ok", tag(r[1])))
 
+    def run_train(self, kw):
+        """the real `train()` with `run_training` replaced, for the duration of the call, by a recorder
+        (harness-side; nothing in /repo changes): what configuration would training start from?"""
+        import copy
+
+        rec = []
+        orig = self.tr.run_training
+        self.tr.run_training = lambda cfg: rec.append(self.OC.to_container(cfg))
+        try:
+            r = call(self.tr.train, **copy.deepcopy(kw))
+        finally:
+            self.tr.run_training = orig
+        if r[0] == "raise":
+            return ("raise", r[1])
+        if len(rec) != 1:
+            return ("raise", f"run_training called {len(rec)} times")
+        return ("ok", tag(rec[0]))
+
+    def compose_builders(self, kw):
+        """TrainingJobConfig(get_data_config(…), get_model_config(…), get_trainer_config(…)).to_sleap_nn_cfg() on the
+        same keyword arguments, each routed to the builder whose signature has it"""
+        import copy
+
+        kw = copy.deepcopy(kw)
+        parts = {}
+        for k in ("data", "model", "trainer"):
+            names = inspect.signature(getattr(self.tr, f"get_{k}_config")).parameters
+            parts[k] = {a: v for a, v in kw.items() if a in names}
+        r = call(lambda: self.OC.to_container(self.tj.TrainingJobConfig(
+            data_config=self.tr.get_data_config(**parts["data"]), model_config=self.tr.get_model_config(**parts["model"]),
+            trainer_config=self.tr.get_trainer_config(**parts["trainer"])).to_sleap_nn_cfg()))
+        return ("raise", r[1]) if r[0] == "raise" else ("ok", tag(r[1]))
+
     def case_kwargs(self, case):
         """keyword arguments of a ctor/bctor case; `yaml` = {dotted.path: YAML literal} entries are loaded
         with OmegaConf (the way a value reaches the classes from a config file) and put in place"""
@@ -509,6 +543,12 @@ class Impl:
         if op == "trainer":
             full = self.full_args(tr.get_trainer_config, case["kw"])
             return [f"trainer {toks(targ(full))}"], self.observe(tr.get_trainer_config, **case["kw"])
+        if op == "train":
+            full = {}
+            for k in ("data", "model", "trainer"):
+                full.update(EFFECTIVE_DEFAULTS[k])
+            full.update(case["kw"])
+            return [f"train {toks(targ(full))}"], self.run_train(case["kw"])
         if op == "mk":
             cls = self.classes[case["cls"]]
             return [f"mk {case['cls']} {toks(targ(case['kw']))}"], self.observe(cls, **case["kw"])
@@ -1086,6 +1126,68 @@ TRAINER_GEN = {
 }
 
 
+# integers / floats a caller may pass: the builders must store them UNCHANGED (value and type)
+INT_EDGE = [-1, -(2 ** 31) - 1, 2 ** 31 - 1, 2 ** 31 + 1, 2 ** 32, 2 ** 32 + 1000, 2 ** 53 + 1, 2 ** 63]
+INT_EDGE_NONNEG = [v for v in INT_EDGE if v >= 0]
+INT_EDGE_POS = [v for v in INT_EDGE if v > 0]
+FLOAT_EDGE_POS = [0.1, 1 / 3, 2 / 3, 1e300, 5e-324, 1e-12, 1.7976931348623157e308, 123456.789, 3.0000000000000004]
+FLOAT_EDGE_ANY = FLOAT_EDGE_POS + [-0.1, -1 / 3, -1e300]
+# which builder arguments are integer- / float-valued, and what the validators leave open
+INT_ARGS = {"data": {"chunk_size": INT_EDGE, "max_height": INT_EDGE, "max_width": INT_EDGE, "min_crop_size": INT_EDGE},
+            "trainer": {"batch_size": INT_EDGE, "num_workers": INT_EDGE, "ckpt_save_top_k": INT_EDGE,
+                        "steps_per_epoch": INT_EDGE, "max_epochs": INT_EDGE, "seed": INT_EDGE,
+                        "early_stopping_patience": INT_EDGE_NONNEG, "trainer_num_devices": INT_EDGE_NONNEG},
+            "model": {}}
+FLOAT_ARGS = {"data": {"scale": FLOAT_EDGE_POS}, "model": {},
+              "trainer": {"learning_rate": FLOAT_EDGE_POS, "early_stopping_min_delta": FLOAT_EDGE_POS}}
+
+
+def widen(g, extra, p=0.3):
+    return lambda r: r.choice(extra) if r.random() < p else g(r)
+
+
+for _k, _t in (("data", DATA_GEN), ("trainer", TRAINER_GEN)):
+    for _a, _e in {**INT_ARGS[_k], **FLOAT_ARGS[_k]}.items():
+        _t[_a] = widen(_t[_a], _e)
+DATA_GEN["crop_hw"] = widen(DATA_GEN["crop_hw"], [(2 ** 32, 2 ** 53 + 1), (-1, 5), [2 ** 63, 1]], 0.2)
+for _t, _ints, _floats in (
+        (UNET_F, ["in_channels", "kernel_size", "filters", "max_stride", "stem_stride", "stacks", "convs_per_block",
+                  "output_stride"], ["filters_rate"]),
+        (CONVNEXT_F, ["stem_patch_kernel", "stem_patch_stride", "in_channels", "output_stride", "max_stride"], ["filters_rate"]),
+        (SWINT_F, ["stem_patch_stride", "in_channels", "output_stride", "max_stride"], ["filters_rate"]),
+        (CM_F, ["anchor_part", "output_stride"], ["sigma", "loss_weight"]),
+        (PAF_F, ["output_stride"], ["sigma", "loss_weight"]),
+        (INT_FIELDS, [], ["gaussian_noise_mean", "gaussian_noise_std"]),
+        (GEO_FIELDS, [], ["rotation", "erase_scale_min", "erase_scale_max", "erase_ratio_min", "erase_ratio_max"])):
+    for _a in _ints:
+        _t[_a] = widen(_t[_a], INT_EDGE, 0.15)
+    for _a in _floats:
+        _t[_a] = widen(_t[_a], FLOAT_EDGE_ANY if _a in ("gaussian_noise_mean", "rotation") else FLOAT_EDGE_POS, 0.15)
+
+
+def number_cases():
+    """every integer- / float-valued builder argument, alone, with every edge value"""
+    D = {"train_labels_path": "t.slp", "val_labels_path": "v.slp"}
+    for kind in ("data", "trainer"):
+        for a, vals in {**INT_ARGS[kind], **FLOAT_ARGS[kind]}.items():
+            for v in vals:
+                yield {"op": kind, "kw": {**(D if kind == "data" else {}), a: v}}
+    for v in [(2 ** 32, 2 ** 53 + 1), (-1, 5), [2 ** 63, 1]]:
+        yield {"op": "data", "kw": {**D, "crop_hw": v}}
+    yield {"op": "trainer", "kw": {"trainer_num_devices": [2 ** 32, 2 ** 63]}}
+    for v in INT_EDGE_POS:
+        yield {"op": "trainer", "kw": {"lr_scheduler": {"step_lr": {"step_size": v}}}}
+    for v in INT_EDGE:
+        yield {"op": "trainer", "kw": {"lr_scheduler": {"reduce_lr_on_plateau": {"cooldown": v, "patience": v}}}}
+        yield {"op": "model", "kw": {"backbone_config": {"unet": {"filters": v, "max_stride": v}},
+                                     "head_configs": {"centroid": {"confmaps": {"anchor_part": v, "output_stride": v}}}}}
+    for v in FLOAT_EDGE_POS:
+        yield {"op": "trainer", "kw": {"lr_scheduler": {"step_lr": {"gamma": v}}}}
+        yield {"op": "trainer", "kw": {"lr_scheduler": {"reduce_lr_on_plateau": {"threshold": v, "factor": v, "min_lr": v}}}}
+        yield {"op": "model", "kw": {"backbone_config": {"unet": {"filters_rate": v}},
+                                     "head_configs": {"bottomup": {"confmaps": {"sigma": v, "loss_weight": v}, "pafs": {"sigma": v}}}}}
+
+
 def gen_kw(rng, table, always=()):
     kw = {}
     dense = rng.random() < 0.35
@@ -1329,6 +1431,54 @@ def which_cases(chk: Check):
 SCHEMA_CLASSES = []      # filled in main from the working tree (every attrs class that has a no-argument constructor)
 
 
+def train_cases(chk: Check, impl: Impl):
+    """the public entry point: every optional parameter of train()'s signature ALONE (list derived by introspection, so
+    a new parameter is picked up), plus random subsets"""
+    rng = chk.rng
+    D = {"train_labels_path": "t.slp", "val_labels_path": "v.slp"}
+    gens = {**DATA_GEN, **MODEL_GEN, **TRAINER_GEN, "pre_trained_weights": lambda r: None}
+    params = inspect.signature(impl.tr.train).parameters
+    builder_params = set()
+    for k in ("data", "model", "trainer"):
+        builder_params |= set(inspect.signature(getattr(impl.tr, f"get_{k}_config")).parameters)
+    for n, p in params.items():
+        if n not in builder_params:
+            chk.fail(f"C20 fails on train: parameter {n!r} of train() is not a parameter of any builder — where does it go?",
+                     {"op": "train", "kw": {**D, n: None}}, None)
+    yield {"op": "train", "kw": dict(D), "kind": "no optional argument"}
+    for n, p in params.items():
+        if p.default is inspect._empty:
+            continue
+        g = gens.get(n)
+        vals = []
+        if g is not None:
+            for _ in range(12):
+                v = g(rng)
+                if tag_or(v) != tag_or(p.default) and not any(tag_or(v) == tag_or(w) for w in vals):
+                    vals.append(v)
+                if len(vals) == 2:
+                    break
+        else:   # a parameter this harness has no generator for: still exercise it, with a value of the default's type
+            d = p.default
+            vals = [not d if isinstance(d, bool) else d + 3 if isinstance(d, int) else d * 0.5 + 0.25 if isinstance(d, float)
+                    else (d or "x") + "-other" if isinstance(d, str) else 5]
+        for v in vals:
+            kw = {**D, n: v}
+            if n in ("intensity_aug", "geometry_aug"):
+                kw["use_augmentations_train"] = True
+            if n == "pre_trained_weights":
+                continue
+            yield {"op": "train", "kw": kw, "kind": "one optional argument"}
+    for b, w in (("swint", "Swin_T_Weights"), ("convnext", "ConvNeXt_Tiny_Weights")):
+        yield {"op": "train", "kw": {**D, "backbone_config": b, "pre_trained_weights": w}, "kind": "one optional argument"}
+    for _ in range(chk.n(40, 400)):
+        kw = {**gen_kw(rng, DATA_GEN), **gen_kw(rng, MODEL_GEN), **gen_kw(rng, TRAINER_GEN)}
+        kw["train_labels_path"], kw["val_labels_path"] = rng.choice(STRS[:2] + STRS[3:7]), rng.choice(STRS[:7])
+        if rng.random() < 0.5:
+            kw["pre_trained_weights"] = valid_pretrained(rng, kw)
+        yield {"op": "train", "kw": kw, "kind": "random subset"}
+
+
 def hist_cases(chk: Check):
     """histories: builder calls interleaved with in-place mutation of objects handed out earlier"""
     rng = chk.rng
@@ -1496,6 +1646,8 @@ def build_cases(chk: Check, impl: Impl):
     # --- validators
     cases += list(invalid_cases())
     cases += list(edge_cases())
+    cases += list(number_cases())
+    cases += list(train_cases(chk, impl))
     cases += list(which_cases(chk))
     # --- merge on arbitrary trees (OmegaConf.merge itself)
     cases += [{"op": "merge", "s": {"a": 1, "b": {"c": "x"}}, "c": {"b": {"c": "y", "d": None}, "e": [1, 0.5]}},
@@ -1676,6 +1828,8 @@ def classify(case):
         return ["verify:" + case["kind"]]
     if op == "which":
         return [f"oneof-after-assignment:{case['mode']}"]
+    if op == "train":
+        return [f"train:{case.get('kind', 'random')}"]
     if op in ("ctor", "bctor"):
         return [f"edge:{op}:{'yaml' if case.get('yaml') else 'py'}:{case.get('expect') or 'no-expectation'}"]
     if op in ("mk", "oneof") or "expect" in case:
@@ -1724,6 +1878,13 @@ def check_case(chk: Check, impl: Impl, case, lines, ires, model_lines):
             why = f"valid value rejected for {case['field']}: {ires[1]}"
     elif op == "verify":
         why = oracle_verify(impl, case["cfg"])
+    elif op == "train":
+        comp = impl.compose_builders(case["kw"])
+        if comp != ires:
+            d = first_diff(ires[1], comp[1]) if ires[0] == "ok" and comp[0] == "ok" else f"{show(ires)!r} instead of {show(comp)!r}"
+            why = "train(" + ", ".join(f"{k}={v!r}" for k, v in case["kw"].items()) + \
+                  ") starts training from a configuration that differs from what the three builders give for the same " \
+                  "arguments: " + d
     elif op == "which":
         final = dict(case["init"])
         for f, c in case["assign"]:
